@@ -16,6 +16,11 @@ from phyclone.utils.math import (
 )
 
 
+# Identifiers are read verbatim as strings: without this pandas parses ids such as "NA" or "null" as missing
+# values and conflates ids that are equal as numbers ("1", "01", "1.0").
+_ID_CONVERTERS = {"mutation_id": str, "sample_id": str}
+
+
 def load_data(
     file_name,
     rng,
@@ -117,12 +122,12 @@ def _setup_cluster_df(
     high_loss_prob,
     assign_loss_prob,
 ):
-    cluster_df = pd.read_csv(cluster_file, sep="\t")
+    cluster_df = pd.read_csv(cluster_file, sep="\t", converters=_ID_CONVERTERS)
     if "outlier_prob" not in cluster_df.columns:
         if assign_loss_prob:
             column_checks = True
             if "chrom" not in cluster_df.columns:
-                data_df = pd.read_table(data_file)
+                data_df = pd.read_table(data_file, converters=_ID_CONVERTERS)
                 if "chrom" in data_df.columns:
                     data_df = data_df[["mutation_id", "chrom"]]
                     cluster_df = pd.merge(cluster_df, data_df, how="inner", on=["mutation_id"])
@@ -230,9 +235,9 @@ def _process_required_cols_on_df(df, samples):
 
 
 def _create_raw_data_df(file_name):
-    df = pd.read_table(file_name)
+    df = pd.read_table(file_name, converters=_ID_CONVERTERS)
     if len(df.columns) == 1:
-        df = pd.read_csv(file_name)
+        df = pd.read_csv(file_name, converters=_ID_CONVERTERS)
     df["sample_id"] = df["sample_id"].astype(str)
     return df
 
